@@ -54,3 +54,33 @@ pub fn parse_verdict<S: Src, K: Skel>(s: &mut S) -> Verdict {
     }
     Ok(())
 }
+
+/// One *structural* byte of a well-formed skeleton made symbolic (all 256
+/// values): a label length, a pointer byte, a type / rdlen / count / option
+/// length byte. The library and the policy oracle must agree on every value,
+/// in both directions; parse never panics; the step budget holds.
+pub fn parse_symbyte<S: Src, K: Skel, const POS: usize>(s: &mut S) -> Verdict {
+    let mut p = K::build_cl(s);
+    let x = s.u8();
+    p[POS] = x;
+    let mut lay = spec::Layout::new();
+    let want = spec::accepts(&p, &mut lay);
+    vassume!(want != spec::Acc::TooBig);
+    errors::verif_steps_reset();
+    let r = real_parse(&p);
+    let st = errors::verif_steps();
+    let steps = (st[0] + st[1] + st[2] + st[3]) as usize;
+    vassert!(steps <= step_budget(p.len()), "parse: validation steps within the linear budget");
+    match r {
+        Ok(pp) => {
+            vassert!(want == spec::Acc::Yes, "parse accepted a packet that is not well-formed");
+            vassert!(slices_eq(pp.packet(), &p), "parse: the parsed packet holds exactly the input bytes");
+            vcover!(s, x != K::RECS[0].start as u8 && true, "accepted");
+        }
+        Err(_) => {
+            vassert!(want == spec::Acc::No, "parse rejected a well-formed packet");
+            vcover!(s, true, "rejected");
+        }
+    }
+    Ok(())
+}
